@@ -59,19 +59,19 @@ func (c *Ctx) startTLSConst() string {
 	return s
 }
 
-func (c *Ctx) isUnbindAtom() func(ssa.Value) bool {
+func (c *Ctx) isUnbindAtom() eqAtom {
 	ub := c.unbindConst()
-	return func(v ssa.Value) bool {
-		s, ok := fieldEqConst(v, G, "Request", "routeOp")
-		return ok && s == ub
+	return func(v ssa.Value) (bool, bool) {
+		s, neq, ok := fieldCmpConst(v, G, "Request", "routeOp")
+		return ok && s == ub, neq
 	}
 }
 
-func (c *Ctx) isStartTLSAtom() func(ssa.Value) bool {
+func (c *Ctx) isStartTLSAtom() eqAtom {
 	st := c.startTLSConst()
-	return func(v ssa.Value) bool {
-		s, ok := fieldEqConst(v, G, "Request", "extendedName")
-		return ok && s == st
+	return func(v ssa.Value) (bool, bool) {
+		s, neq, ok := fieldCmpConst(v, G, "Request", "extendedName")
+		return ok && s == st, neq
 	}
 }
 
@@ -196,9 +196,9 @@ func checkC06(c *Ctx) {
 		}
 		key := "(*conn).serveRequests: synchronous " + what
 		switch {
-		case hasFact(ci.Block(), true, isUnbind):
+		case hasEqFact(ci.Block(), true, isUnbind):
 			R.OK("C06-async", key+" (unbind)", c.pos(ci), "only reached when routeOp == unbind")
-		case hasFact(ci.Block(), true, isTLS):
+		case hasEqFact(ci.Block(), true, isTLS):
 			R.OK("C06-async", key+" (StartTLS)", c.pos(ci), "only reached when extendedName == StartTLS")
 		default:
 			R.Fail("C06-async", key, c.pos(ci), "a handler is run synchronously in the read loop for requests other than Unbind/StartTLS: a blocking handler delays every later request on the connection")
@@ -382,7 +382,7 @@ func checkC10(c *Ctx) {
 		return
 	}
 	isUnbind := c.isUnbindAtom()
-	ifs := ifsOn(m.serve, isUnbind)
+	ifs := ifsOnEq(m.serve, isUnbind)
 	if len(ifs) != 1 {
 		R.Fail("C10-first", "(*conn).serveRequests: routeOp == unbind test", c.pos(m.readReq), sprintf("expected one test of r.routeOp == unbindRouteOperation in the read loop, found %d", len(ifs)))
 		return
@@ -413,7 +413,7 @@ func checkC10(c *Ctx) {
 		if isGo(ci) {
 			what = "go router.serve"
 		}
-		R.Check(hasFact(ci.Block(), false, isUnbind), "C10-first", "(*conn).serveRequests: "+what+" excluded for unbind", c.pos(ci), "control-dependent on routeOp != unbind (the unbind test is decided first)", "this dispatch site can be reached by an Unbind request")
+		R.Check(hasEqFact(ci.Block(), false, isUnbind), "C10-first", "(*conn).serveRequests: "+what+" excluded for unbind", c.pos(ci), "control-dependent on routeOp != unbind (the unbind test is decided first)", "this dispatch site can be reached by an Unbind request")
 	}
 	R.Floor("C10-first", 2)
 	// ---- C10-terminal
@@ -542,7 +542,7 @@ func checkC13(c *Ctx) {
 	// ---- C13-inline
 	n := 0
 	for _, ci := range an.Calls(m.serve) {
-		if !hasFact(ci.Block(), true, isTLS) {
+		if !hasEqFact(ci.Block(), true, isTLS) {
 			continue
 		}
 		cc := ci.Common()
@@ -560,7 +560,7 @@ func checkC13(c *Ctx) {
 		R.Fail("C13-inline", "(*conn).serveRequests: StartTLS served inline", c.pos(m.readReq), "no dispatch site is control-dependent on extendedName == StartTLS: StartTLS goes through the concurrent path")
 	}
 	// the extendedName tested is that of the request just read and newRequest sets it from the message name
-	for _, g := range ifsOn(m.serve, isTLS) {
+	for _, g := range ifsOnEq(m.serve, isTLS) {
 		v, _ := an.Not(g.If.Cond)
 		bo := v.(*ssa.BinOp)
 		var base ssa.Value
@@ -704,6 +704,31 @@ func checkC13(c *Ctx) {
 		R.Check(ok && same, "C13-fresh-writer", fname(ci.Parent())+": ber.ReadPacket(c.reader)", c.pos(ci), "c.reader is loaded at each read", "ReadPacket does not read from a fresh load of c.reader")
 	}
 	R.Floor("C13-fresh-writer", 2)
+	// the connection lock taken for the swap (and for every read) is released again: a conn.mu that stays locked
+	// after the upgrade blocks the next readPacket, i.e. nothing inside the tunnel is ever decoded
+	{
+		var lf []*ssa.Function
+		for _, n := range []string{"(*conn).initConn", "(*conn).readPacket", "(*Request).StartTLS", "(*conn).close"} {
+			if f := c.P.Func(G, n); f != nil {
+				lf = append(lf, an.WithClosures(f)...)
+				for g := range syncReach(f) {
+					if g != f && an.InModule(g) {
+						lf = append(lf, an.WithClosures(g)...)
+					}
+				}
+			}
+		}
+		seen := map[*ssa.Function]bool{}
+		var uniq []*ssa.Function
+		for _, f := range lf {
+			if !seen[f] {
+				seen[f] = true
+				uniq = append(uniq, f)
+			}
+		}
+		c.checkLockRelease("C13-lockrelease", uniq, "the next read on the connection blocks for ever: no request inside the TLS tunnel is decoded")
+		R.Floor("C13-lockrelease", 2)
+	}
 	// ---- C13-no-bypass
 	c.checkSocketDiscipline("C13-no-bypass")
 	for _, f := range shipped {
